@@ -372,14 +372,36 @@ kf("C15", "C15-spirv-no-zero-init-function-private", "function and private varia
 kf("C15", "C15-hlsl-restrict-not-applied-to-buffers", "with RestrictIndexing on, dynamic indices into storage-buffer and uniform access chains (array members, vector components, nested arrays, runtime arrays, atomics) are not clamped: an out-of-range index reads/writes a neighbouring member or beyond the object; only function/private/workgroup arrays get min(uint(i), n-1)",
    ["C15|hlsl|*|F15acc/read/storage-*|wrong-result", "C15|hlsl|*|F15acc/write/storage-*|wrong-result", "C15|hlsl|*|F15acc/read/atomic-load/*|wrong-result", "C15|hlsl|*|F15acc/write/atomic-add/*|wrong-result",
     "C15|hlsl|*|F15acc/read/uniform-*|trap:oob-read", "C15|hlsl|*|F15acc/read/uniform-*|wrong-result",
-    "C15|hlsl|*|F15idx/*/storage/*|wrong-result", "C15|hlsl|*|F15idx/read/uniform/*|trap:oob-read", "C15|hlsl|*|F15idx/read/uniform/*|wrong-result"])
+    "C15|hlsl|*|F15idx/*/storage/*|wrong-result", "C15|hlsl|*|F15idx/read/uniform/*|trap:oob-read", "C15|hlsl|*|F15idx/read/uniform/*|wrong-result",
+    # the same sites with every index-expression form (F15xf) and in 2-/3-level chains (F15xc)
+    "C15|hlsl|*|F15xf/acc/read/storage-*|wrong-result", "C15|hlsl|*|F15xf/acc/write/storage-*|wrong-result", "C15|hlsl|*|F15xf/acc/read/atomic-load/*|wrong-result", "C15|hlsl|*|F15xf/acc/write/atomic-add/*|wrong-result",
+    "C15|hlsl|*|F15xf/acc/read/uniform-*|trap:oob-read", "C15|hlsl|*|F15xf/acc/read/uniform-*|wrong-result",
+    "C15|hlsl|*|F15xf/read/storage/*|wrong-result", "C15|hlsl|*|F15xf/write/storage/*|wrong-result", "C15|hlsl|*|F15xf/compound/storage/*|wrong-result",
+    "C15|hlsl|*|F15xf/read/uniform/*|trap:oob-read", "C15|hlsl|*|F15xf/read/uniform/*|wrong-result",
+    "C15|hlsl|*|F15xc/read/storage/*|wrong-result", "C15|hlsl|*|F15xc/write/storage/*|wrong-result", "C15|hlsl|*|F15xc/compound/storage/*|wrong-result",
+    "C15|hlsl|*|F15xc/read/uniform/*|trap:oob-read", "C15|hlsl|*|F15xc/read/uniform/*|wrong-result"])
 kf("C15", "C15-hlsl-private-array-declaration", "private arrays are declared `static uint[4] pa` (dimension after the type): not HLSL (same defect as C07-hlsl-private-array-declaration)",
    ["C15|hlsl|*|F15*|malformed-output:array dimension after type name*"])
 kf("C15", "C15-hlsl-matrix-helper-on-unemitted-struct", "a storage-only struct with a matCx2 member and a runtime-array tail is not declared in the HLSL text, but the GetMat/SetMat helper functions taking it by value are emitted: unknown type",
-   ["C15|hlsl|*|F15acc/*/storage-matrix-column/*|malformed-output:unknown type \"S\""])
-kf("C15", "C15-msl-rzsw-value-array-unchecked", "under ReadZeroSkipWrite a dynamically indexed let-bound array or vector value (`va.inner[i]`, `vv[i]`) is emitted without any bounds check",
+   ["C15|hlsl|*|F15acc/*/storage-matrix-column/*|malformed-output:unknown type \"S\"", "C15|hlsl|*|F15xf/acc/*/storage-matrix-column/*|malformed-output:unknown type \"S\""])
+kf("C15", "C15-hlsl-matcx2-member-helper-never-emitted", "a struct with a matCx2 member held in a function/workgroup variable or a value is accessed through GetMat<member>On<Struct>(...), but that helper function is never emitted (`x[i].m[j][i]` with m: mat3x2<f32>): call of an undeclared function (same class as the C07 finding that HLSL helper functions are not emitted)",
+   ["C15|hlsl|*|F15xc/*/aos*.m3x2/*|malformed-output:call of undeclared function \"GetMat*"])
+kf("C15", "C15-hlsl-restrict-loaded-value-unclamped", "with RestrictIndexing on, an array/vector/matrix value LOADED from a storage or uniform buffer and held in a let (`let c = x; c[i]`, `let s = w; s.f[i]`, `let sub = xs[1]; sub[i]`) is indexed without the min(uint(i), n-1) clamp; the same value passed as a function argument, or a constructed let value, is clamped",
+   ["C15|hlsl|*|F15xv/let/storage/*|trap:oob-read", "C15|hlsl|*|F15xv/let/uniform/*|trap:oob-read", "C15|hlsl|*|F15xv/member/storage/*|trap:oob-read", "C15|hlsl|*|F15xv/member/uniform/*|trap:oob-read",
+    "C15|hlsl|*|F15xv/sub-let/storage/*|trap:oob-read", "C15|hlsl|*|F15xv/sub-let/uniform/*|trap:oob-read"])
+kf("C15", "C15-hlsl-nested-array-constructor-never-emitted", "loading an array of arrays from a storage buffer as a value calls Constructarray<N>_<elem>_ for the inner arrays, but only the outermost constructor helper is emitted: call of an undeclared function",
+   ["C15|hlsl|*|F15xv/*/storage/*|malformed-output:call of undeclared function \"Constructarray*"])
+kf("C15", "C15-msl-rzsw-value-array-unchecked", "under ReadZeroSkipWrite a dynamically indexed let-bound array, vector or matrix value (`va.inner[i]`, `vv[i]`; constructed, loaded, a struct member, a call result, a sub-aggregate) is emitted without any bounds check; function parameters are checked",
    ["C15|msl|index+buffer=read-zero-skip-write(default)|F15acc/read/value-array/*|trap:oob-read", "C15|msl|index+buffer=read-zero-skip-write(default)|F15acc/read/value-vector/*|trap:oob-read",
-    "C15|msl|index+buffer=read-zero-skip-write(default)|F15idx/read/value/*|trap:oob-read"])
+    "C15|msl|index+buffer=read-zero-skip-write(default)|F15idx/read/value/*|trap:oob-read",
+    "C15|msl|index+buffer=read-zero-skip-write(default)|F15xf/acc/read/value-array/*|trap:oob-read", "C15|msl|index+buffer=read-zero-skip-write(default)|F15xf/acc/read/value-vector/*|trap:oob-read",
+    "C15|msl|index+buffer=read-zero-skip-write(default)|F15xf/read/value/*|trap:oob-read", "C15|msl|index+buffer=read-zero-skip-write(default)|F15xc/read/value/*|trap:oob-read",
+    "C15|msl|index+buffer=read-zero-skip-write(default)|F15xv/let/*|trap:oob-read", "C15|msl|index+buffer=read-zero-skip-write(default)|F15xv/member/*|trap:oob-read",
+    "C15|msl|index+buffer=read-zero-skip-write(default)|F15xv/ret/*|trap:oob-read", "C15|msl|index+buffer=read-zero-skip-write(default)|F15xv/ret-let/*|trap:oob-read",
+    "C15|msl|index+buffer=read-zero-skip-write(default)|F15xv/sub-let/*|trap:oob-read"])
+kf("C15", "C15-msl-restrict-bare-runtime-array-unclamped", "under Index=Buffer=Restrict a dynamic index into a storage global that IS a runtime-sized array (`var<storage> x: array<T>`, not the tail member of a struct) is emitted raw (`x[i]`, `x[i].inner[min(...)]`): no clamp against the buffer size, reads and writes beyond the buffer",
+   ["C15|msl|index+buffer=restrict|F15xc/*/storage/rt*-aoa3/*|trap:oob-read", "C15|msl|index+buffer=restrict|F15xc/*/storage/rt*-aoa3/*|trap:oob-write",
+    "C15|msl|index+buffer=restrict|F15xf/*/storage/rt*-array<*|trap:oob-read", "C15|msl|index+buffer=restrict|F15xf/*/storage/rt*-array<*|trap:oob-write"])
 
 # ---------------------------------------------------------------- C16 (identifiers)
 kf("C16", "C16-glsl-gl-prefix", "a user identifier beginning with gl_ is emitted as gl_<name>_ (only a suffix is appended): GLSL reserves every identifier with the gl_ prefix",
